@@ -68,6 +68,7 @@ def run(chk):
                     refs.setdefault(key, set()).add(usr)
                 elif n.get("k") == "member" and n.get("static_member"):
                     refs.setdefault(n["static_member"], set()).add(usr)
+        tls_undecided = []
         for k, s in sorted(mutable.items()):
             users = refs.get(k, set())
             hit = sorted(users & reach)
@@ -80,9 +81,11 @@ def run(chk):
                     chk.proved("R1", key, where=s["loc"], detail="per-thread object; referenced by %d functions%s" % (
                         len(users), " (FFT processor: scratch rewritten per transform, see R5)" if isproc else ""), variant=vn)
                 else:
-                    chk.refuted("R1", "mutable thread_local '%s' carries state between evaluation calls" % s["q"], where=s["loc"],
-                                detail="written/read by %s, reachable from the evaluation API: the result of a call can depend on what ran before "
-                                       "on the same thread" % sorted(v.qname(u) for u in users & reach)[:3], variant=vn)
+                    # race-free; whether a call can observe what an earlier call left there (a cache that is always refreshed before
+                    # use is fine, one that is not is a history dependence) is a property of all call sequences: not decided here
+                    tls_undecided.append("mutable thread_local '%s' (%s) is used by %s, reachable from the evaluation API: per-thread state that "
+                                         "persists between calls; whether a result can depend on earlier calls is not decided" % (
+                                             s["q"], s["loc"], sorted(v.qname(u) for u in users & reach)[:3]))
                 continue
             # a mutex is the synchronisation object itself
             if re.search(r"\bstd::mutex\b|\bmutex\b", s["t"]):
@@ -213,9 +216,19 @@ def run(chk):
                     if r is not None and (r[0] == "glob" or (r[0] == "sym" and (r[1] in names or r[1] == "this"))):
                         if x["val"][0] == "obj" and not re.match(r"^(new_|alloc_|malloc|calloc|fftw_malloc)", x["val"][1]):
                             continue
+                        st_ = v.statics.get(r[1]) if r[0] == "glob" else None
+                        if st_ is not None and st_.get("tls"):
+                            continue        # a per-thread cache: no other thread sees it; its history is R1's (undecided) question
+                        if r == sym.sym("this") and g.get("record"):
+                            insts_ = [s_ for s_ in v.statics.values() if s_.get("definition") and re.sub(r"\bconst\b|\s", "", s_["t"]) == re.sub(r"\s", "", g.record)]
+                            made_ = any(n_.get("k") == "new" and n_.get("alloc") == g.record for fn_ in v.defined() for n_ in walk(fn_.d.get("body")))
+                            if insts_ and all(s_.get("tls") for s_ in insts_) and not made_:
+                                continue    # a method of a class whose only instances are per-thread objects
                         parked.append("%s stores %s into %s at %s:%s" % (g.q, sym.show(x["val"])[:40], sym.show(x["lv"])[:40], g.file, x["l"]))
         chk.require(not parked, "R4", "evaluation code keeps every scratch allocation in a local", where="libtfhe",
                     ok="%d evaluation-reachable functions inspected" % len(reach), bad="; ".join(parked[:3]), variant=vn)
+        if tls_undecided:
+            chk.broken(tls_undecided[0])
         # R6 no clock/env/RNG
         rs = rng_statics(v)
         rrefs = referencing(v, {s["q"] for s in rs.values()})
